@@ -97,8 +97,96 @@ where
     out.obs1("check", "S", decision(&d));
 }
 
+/// Ligero (univariate) end to end against the algebraic model: the coefficient matrix, the opened vectors, the queried
+/// columns, the verifier's decision on the honest proof, on a false value and on mutated proofs (the proof "as sent"
+/// and the verifier's own transcript are handed to the model).
+fn ligflow(c: &Case, out: &mut Out) {
+    use ark_poly::DenseUVPolynomial;
+    use ark_poly_commit::linear_codes::LinearCodePCS;
+    use ark_poly_commit::LabeledPolynomial;
+    type L = UnivariateLigero<Fr, MTConfig, UniPoly, ColH<Fr>>;
+    type PCS = LinearCodePCS<L, Fr, UniPoly, MTConfig, ColH<Fr>>;
+    let pp = crate::schemes::ligero_params(c).expect("lig parameters");
+    let lig = c.usizes("lig");
+    let (ck, vk) = (pp.clone(), pp.clone());
+    let coeffs: Vec<Fr> = fs_from_strs(c.get("poly"));
+    let poly = UniPoly::from_coefficients_vec(coeffs.clone());
+    let z: Fr = f_from_str(c.str1("pt"));
+    let lp = LabeledPolynomial::new("p".into(), poly.clone(), None, None);
+    let cmr = guard_any(|| PCS::commit(&ck, [&lp], None));
+    out.obs1("commit", "S", cmr.class());
+    let (cm, st) = match cmr.ok() { Some(x) => x, None => return };
+    let (n_rows, n_cols, n_ext) = lh::commitment_metadata(cm[0].commitment());
+    out.obs("dims", "N", &[n_rows.to_string(), n_cols.to_string(), n_ext.to_string()]);
+    out.input("n_rows", &[n_rows.to_string()]);
+    out.input("n_cols", &[n_cols.to_string()]);
+    out.input("n_ext", &[n_ext.to_string()]);
+    let dom = GeneralEvaluationDomain::<Fr>::new(n_cols * lig[1]).unwrap();
+    out.input("omega", &[f_to_str(&dom.group_gen())]);
+    out.obs1("dom_size", "N", dom.size().to_string());
+    // the polynomial as the library holds it (trailing zeros stripped)
+    out.input("coeffs", &{ let v = fs_to_strs(&poly.coeffs); if v.is_empty() { vec!["-".into()] } else { v } });
+    let tape = |sp: &RecSponge<Fr>, pre: &str, out: &mut Out| {
+        let mut k = 0;
+        let mut r: Vec<String> = vec![];
+        for e in &sp.log {
+            match e {
+                Ev::SqBytes(_, b) => { out.input(&format!("{}sq.{}", pre, k), &b.iter().map(|x| x.to_string()).collect::<Vec<_>>()); k += 1; }
+                Ev::SqField(_, v) => r.extend(v.iter().cloned()),
+                _ => {}
+            }
+        }
+        out.input(&format!("{}r", pre), &if r.is_empty() { vec!["-".into()] } else { r });
+        out.input(&format!("{}nsq", pre), &[k.to_string()]);
+    };
+    let mut ps = RecSponge::<Fr>::fresh();
+    let opr = guard_any(|| PCS::open(&ck, [&lp], &cm, &z, &mut ps, &st, None));
+    out.obs1("open", "S", opr.class());
+    let pf = match opr.ok() { Some(x) => x, None => return };
+    tape(&ps, "p.", out);
+    let dash = |v: Vec<String>| if v.is_empty() { vec!["-".to_string()] } else { v };
+    let parts_obs = |name: &str, p: &ark_poly_commit::linear_codes::LinCodePCProof<Fr, MTConfig>, as_input: bool, intact: bool, out: &mut Out| {
+        let (paths, v, cols, wf) = lh::proof_parts(p);
+        let items: Vec<(String, &str, Vec<String>)> = vec![
+            (format!("{}v", name), "F", dash(fs_to_strs(v))),
+            (format!("{}wf", name), "F", match wf { Some(w) => dash(fs_to_strs(w)), None => vec!["none".into()] }),
+            (format!("{}leaf_idx", name), "N", dash(paths.iter().map(|q| q.leaf_index.to_string()).collect())),
+            (format!("{}col_lens", name), "N", dash(cols.iter().map(|x| x.len().to_string()).collect())),
+            (format!("{}cols", name), "F", dash(cols.iter().flat_map(|x| fs_to_strs(x)).collect())),
+        ];
+        for (k, t, v) in items { if as_input { out.input(&k, &v); } else { out.obs(&k, t, &v); } }
+        if as_input { out.input(&format!("{}intact", name), &[if intact { "1".into() } else { "0".into() }]); }
+    };
+    parts_obs("pf.", &pf[0], false, true, out);
+    use ark_poly::Polynomial;
+    let val = poly.evaluate(&z);
+    out.obs1("value", "F", f_to_str(&val));
+    let mut vs = RecSponge::<Fr>::fresh();
+    let d = guard_any(|| PCS::check(&vk, &cm, &z, [val], &pf, &mut vs, None));
+    out.obs1("check", "S", decision(&d));
+    tape(&vs, "v.", out);
+    let delta: Fr = f_from_str(c.str1("delta"));
+    let mut vs2 = RecSponge::<Fr>::fresh();
+    let d2 = guard_any(|| PCS::check(&vk, &cm, &z, [val + delta], &pf, &mut vs2, None));
+    out.obs1("check_bad", "S", decision(&d2));
+    // mutated proofs: kind j k2
+    for (i, toks) in c.indexed("mut") {
+        let kind = toks[0].as_str();
+        let args: Vec<String> = toks[1..].to_vec();
+        let m = match crate::schemes::mutate_lincode_proof(kind, &pf, &args) { Some(m) => m, None => { out.input(&format!("m{}.skip", i), &["1".into()]); continue } };
+        if m.len() != 1 { out.input(&format!("m{}.skip", i), &["1".into()]); continue; }
+        let intact = !(kind == "path_index" || kind == "path_node");
+        parts_obs(&format!("m{}.", i), &m[0], true, intact, out);
+        let mut ms = RecSponge::<Fr>::fresh();
+        let dm = guard_any(|| PCS::check(&vk, &cm, &z, [val], &m, &mut ms, None));
+        out.obs1(&format!("mut.{}", i), "S", decision(&dm));
+        tape(&ms, &format!("m{}.", i), out);
+    }
+}
+
 pub fn run(c: &Case, out: &mut Out) {
     match c.str1("sub") {
+        "ligflow" => ligflow(c, out),
         "proofshape" => {
             use crate::pc::Adapter;
             use crate::schemes::{BrakedownMLA, LigeroMLA, LigeroUniA};
